@@ -55,7 +55,9 @@ def run_search(job):
     state = {"exhaustive": False}
     n = 0
     try:
-        for res, state in explore.bounded(lambda ch: World(program, ch, **opts).run(), bound, max_runs):
+        search = explore.one_preemption_everywhere if bound == 1 else explore.bounded
+        args = (max_runs,) if bound == 1 else (bound, max_runs)
+        for res, state in search(lambda ch: World(program, ch, **opts).run(), *args):
             n += 1
             key = json.dumps(res["events"], sort_keys=True)
             if key not in seen:
